@@ -464,19 +464,32 @@ func (e *Enc) binop(fr *Frame, x *ssa.BinOp) {
 		if k, ok := litValue(bt); ok && k.IsInt64() && k.Int64() < 64 {
 			e.setVal(fr, x, e.wrapShl(fr, Mul(at, IntBig(pow2(uint(k.Int64())))), rt, x))
 		} else {
-			e.setVal(fr, x, e.uninterpBits(fr, "shl", at, bt, rt))
+			rg, _ := intRangeOf(rt)
+			nb := IntLit(int64(rg.bits))
+			exact := Ite(Ge(bt, nb), IntLit(0), Mul(at, e.pow2Fun(bt)))
+			e.setVal(fr, x, e.wrapShl(fr, exact, rt, x))
 		}
 	case token.SHR:
 		if k, ok := litValue(bt); ok && k.IsInt64() && k.Int64() < 64 {
 			e.setVal(fr, x, e.s.Define("shr:"+x.Name(), App(SInt, "div", at, IntBig(pow2(uint(k.Int64()))))))
 		} else {
-			e.setVal(fr, x, e.uninterpBits(fr, "shr", at, bt, rt))
+			rg, _ := intRangeOf(rt)
+			nb := IntLit(int64(rg.bits))
+			over := IntLit(0)
+			if rg.signed {
+				over = Ite(Lt(at, IntLit(0)), IntLit(-1), IntLit(0))
+			}
+			e.setVal(fr, x, e.s.Define("shr:"+x.Name(), Ite(Ge(bt, nb), over, App(SInt, "div", at, e.pow2Fun(bt)))))
 		}
 	case token.AND:
 		if m, ok := litValue(bt); ok && isMask(m) {
 			e.setVal(fr, x, e.s.Define("and:"+x.Name(), App(SInt, "mod", at, IntBig(new(big.Int).Add(m, big.NewInt(1))))))
 		} else if m, ok := litValue(at); ok && isMask(m) {
 			e.setVal(fr, x, e.s.Define("and:"+x.Name(), App(SInt, "mod", bt, IntBig(new(big.Int).Add(m, big.NewInt(1))))))
+		} else if m, ok := litValue(bt); ok && contiguousMask(m) != nil {
+			e.setVal(fr, x, e.s.Define("and:"+x.Name(), andContiguous(at, contiguousMask(m))))
+		} else if m, ok := litValue(at); ok && contiguousMask(m) != nil {
+			e.setVal(fr, x, e.s.Define("and:"+x.Name(), andContiguous(bt, contiguousMask(m))))
 		} else if m, ok := litValue(bt); ok && fewBits(m) {
 			e.setVal(fr, x, e.s.Define("and:"+x.Name(), andWithBits(at, m)))
 		} else if m, ok := litValue(at); ok && fewBits(m) {
@@ -709,4 +722,42 @@ func andWithBits(x T, m *big.Int) T {
 		return terms[0]
 	}
 	return App(SInt, "+", terms...)
+}
+
+// pow2Fun: 2^k for 0 <= k < 64 (and 2^64 beyond) as a defined SMT function.
+func (e *Enc) pow2Fun(k T) T {
+	if v, ok := litValue(k); ok && v.IsInt64() && v.Int64() >= 0 && v.Int64() < 512 {
+		return IntBig(pow2(uint(v.Int64())))
+	}
+	if !e.s.declSet["pow2fun"] {
+		e.s.declSet["pow2fun"] = true
+		body := IntBig(pow2(64)).S
+		for i := 63; i >= 0; i-- {
+			body = fmt.Sprintf("(ite (= |pk| %d) %s %s)", i, pow2(uint(i)).String(), body)
+		}
+		e.s.decls = append(e.s.decls, "(define-fun pow2 ((|pk| Int)) Int "+body+")")
+	}
+	return App(SInt, "pow2", k)
+}
+
+// contiguousMask: m == 2^hi - 2^lo (a run of ones); returns [lo, hi] or nil.
+func contiguousMask(m *big.Int) []uint {
+	if m.Sign() <= 0 {
+		return nil
+	}
+	lo := uint(0)
+	for m.Bit(int(lo)) == 0 {
+		lo++
+	}
+	hi := uint(m.BitLen())
+	want := new(big.Int).Sub(pow2(hi), pow2(lo))
+	if want.Cmp(m) != 0 {
+		return nil
+	}
+	return []uint{lo, hi}
+}
+
+// andContiguous: x & (2^hi - 2^lo) = (x mod 2^hi) - (x mod 2^lo), exact for two's complement.
+func andContiguous(x T, r []uint) T {
+	return Sub(App(SInt, "mod", x, IntBig(pow2(r[1]))), App(SInt, "mod", x, IntBig(pow2(r[0]))))
 }
